@@ -1,11 +1,8 @@
+\* the property's invariants (Isolation, OwnLogs, ExactOutcome, ExactReport) are asserted for the test being
+\* finished inside TrFinish (cost linear in the run instead of quadratic)
 CONSTANTS
   Runners = 1000000
   Shared = FALSE
 SPECIFICATION TraceSpec
-INVARIANT Isolation
-INVARIANT OwnLogs
-INVARIANT ExactOutcome
-INVARIANT ExactReport
-INVARIANT OnlySelected
 POSTCONDITION Accepted
 CHECK_DEADLOCK FALSE
